@@ -1,9 +1,42 @@
 import Cstl.Gen.TreeLC2
 import Cstl.TreeL.Model
+import Cstl.TreeL.Lemmas
+import Cstl.Tree.Events
+/-
+Translator tie, part 2, for the pointer-manipulating code of src/bintree.c and src/rbtree.c.
+
+`Cstl/Gen/TreeLC2.lean` is regenerated from /repo's current sources by tools/c2lean_tree.py on every
+check run (tools/areas/treel_tie.py: `tie2_run`); the fixed theorems below are re-checked by the kernel
+against the regenerated definitions.
+
+Form of the ties.  The translation is total (a read through NULL reads address 0, as in TreeLC); the
+hand-written model (TreeL/Model.lean) stops with `none` where the C code would dereference NULL and where a
+loop runs out of fuel.  Every tie says: WHEREVER THE MODEL DOES NOT STOP IT IS THE TRANSLATION,
+
+    model … = some r  →  translation … = some r          (loop-free C functions:  translation … = r)
+
+with the fuel the model uses (`h.size`, `h.size + 1`, …) handed to the translated loops; loops by induction
+on the fuel.  `rb_history_no_stop` / `bt_history_refines` (Props) show that the model never stops on a
+reachable state, so on those states model and translation are equal.
+
+Parameters of the translation and how the ties instantiate them
+* `d : Bool` – the `(l, r)` child-selector pair (`true`: `l = __cstl_bintree_left`); the loops of
+  `cstl_rbtree_insert` / `__cstl_rbtree_erase` call the fix-up translation with `true` / `false` where the
+  model computes `decide …`.
+* `cmp : Nat → Nat → Int` – `__cstl_bintree_cmp` on node addresses; insert needs `cmp a b < 0 ↔ key a < key b`,
+  find needs `CmpProbe` (the probe element orders like the key `k` the model is given).
+* `adr_x` – the address of the stack-local stand-in `_x` of `__cstl_rbtree_erase` = the model's `sx`.
+* `par`, `par_cell` – the out parameter of `cstl_bintree_find` (address, content before); the content after
+  is an extra result.
+* `visit : σ → TM → Nat → Nat → σ × TM × Int` – the callback of `__cstl_bintree_foreach`.  There is no
+  link-level model of the traversal; `foreach_refines` ties the translation directly to the functional
+  `Cstl.Tree.walk` (the function the C01 traversal theorems are about) on every memory that represents a
+  tree (`Shape`), for the callback `visitL visit` that logs the visit and leaves the links alone.
+-/
 namespace Cstl.TreeL.Tie2
 open Cstl.TreeL Cstl.Gen.TreeLC2
-open Cstl.Tree (Color)
-open Cstl.Tree.Color
+open Cstl.Tree (Color Elem Tree Ord Ev WSt walk doVisit)
+open Cstl.Tree.Color Cstl.Tree.Tree
 
 theorem rotate_tie (m : TM) (h : Hd) (x : Nat) (d : Bool) :
     rotate m h x d =
@@ -539,5 +572,155 @@ theorem rbErase_tie (cmp : Nat → Nat → Int) (m : TM) (h : Hd) (f : Nat) (k :
   rename_i m' h' he
   rw [rbEraseNode_tie m h n sx f3 _ he]
   exact hr
+
+
+/-! ### __cstl_bintree_foreach (recursion; tied to the functional traversal `Cstl.Tree.walk`) -/
+
+/-- the numbers of `cstl_bintree_visit_order_t` -/
+def ordOf : Nat → Ord
+  | 0 => .pre
+  | 1 => .mid
+  | 2 => .post
+  | _ => .leaf
+
+/-- the callback of the translated traversal that stands for a functional visit function: it logs the
+visit, leaves the link memory alone and answers what `visit` answers -/
+def visitL (visit : Nat → Elem → Ord → Int) (log : List Ev) (m : TM) (a o : Nat) : List Ev × TM × Int :=
+  (log ++ [(elemAt m a, ordOf o)], m, visit log.length (elemAt m a) (ordOf o))
+
+theorem walk_done (fwd : Bool) (visit : Nat → Elem → Ord → Int) (t : Tree) (r : Int) (log : List Ev) (hr : r ≠ 0) :
+    walk fwd visit t (r, log) = (r, log) := by
+  rw [Cstl.Tree.walk_eq_runVisits]; exact Cstl.Tree.runVisits_done visit _ log hr
+
+theorem shape_isNil {m : TM} {a p : Nat} {t : Tree} (h : Shape m a p t) : t.isNil = true ↔ a = 0 := by
+  cases t with
+  | nil => simpa [Tree.isNil] using h
+  | node c l e r => simp only [Shape_node] at h; simp [Tree.isNil, h.1]
+
+/-- one `if (res == 0 && child != NULL) res = __cstl_bintree_foreach(child, …)` step -/
+theorem childStep (visit : Nat → Elem → Ord → Int) (d : Bool) (m : TM) (fuel ac a : Nat) (tc : Tree)
+    (hS : Shape m ac a tc) (hh : tc.height ≤ fuel)
+    (ih : ∀ log, ac ≠ 0 → c_priv_cstl_bintree_foreach (visitL visit) fuel log m ac d =
+        some ((walk d visit tc (0, log)).2, m, (walk d visit tc (0, log)).1))
+    (res : Int) (log : List Ev) :
+    (if res = 0 ∧ ¬ac = 0 then c_priv_cstl_bintree_foreach (visitL visit) fuel log m ac d
+      else some (log, m, res)) =
+      some ((walk d visit tc (res, log)).2, m, (walk d visit tc (res, log)).1) := by
+  by_cases hr : res = 0
+  · subst hr
+    by_cases ha : ac = 0
+    · have : tc = .nil := by
+        cases tc with
+        | nil => rfl
+        | node c l e r => simp only [Shape_node] at hS; exact absurd ha hS.1
+      subst this
+      simp [ha, walk]
+    · simp only [ha, not_false_eq_true, and_self, if_true]
+      rw [ih log ha]
+  · simp only [hr, false_and, if_false]
+    rw [walk_done d visit tc res log hr]
+
+
+theorem foreach_refines (visit : Nat → Elem → Ord → Int) (d : Bool) (m : TM) (t : Tree) :
+    ∀ (a p : Nat) (log : List Ev) (fuel : Nat), Shape m a p t → a ≠ 0 → t.height ≤ fuel →
+      c_priv_cstl_bintree_foreach (visitL visit) fuel log m a d =
+        some ((walk d visit t (0, log)).2, m, (walk d visit t (0, log)).1) := by
+  induction t with
+  | nil => intro a p log fuel hS ha; exact absurd (by simpa using hS) ha
+  | node c l e r ihl ihr =>
+    intro a p log fuel hS ha hh
+    cases fuel with
+    | zero => simp [Tree.height] at hh
+    | succ f =>
+      simp only [Shape_node] at hS
+      obtain ⟨_, he, _, _, hl, hr⟩ := hS
+      simp only [Tree.height] at hh
+      have hhl : l.height ≤ f := by omega
+      have hhr : r.height ≤ f := by omega
+      have nl := shape_isNil hl
+      have nr := shape_isNil hr
+      subst he
+      cases d
+      · -- reverse: `l` = right, `r` = left
+        have cl := childStep visit false m f (m.rt a) a r hr hhr (fun log h0 => ihr _ _ log f hr h0 hhr)
+        have cr := childStep visit false m f (m.lf a) a l hl hhl (fun log h0 => ihl _ _ log f hl h0 hhl)
+        unfold c_priv_cstl_bintree_foreach
+        simp only [chL, chR, Bool.false_eq_true, if_false]
+        by_cases hA : m.rt a = 0 ∧ m.lf a = 0
+        · have e1 : r = .nil := by cases r <;> simp_all [Tree.isNil]
+          have e2 : l = .nil := by cases l <;> simp_all [Tree.isNil]
+          subst e1 e2
+          simp [hA.1, hA.2, visitL, ordOf, walk, doVisit, Tree.isNil]
+        · have hleaf : (l.isNil && r.isNil) = false := by
+            cases hb : (l.isNil && r.isNil) with
+            | false => rfl
+            | true => simp only [Bool.and_eq_true] at hb; exact absurd ⟨nr.1 hb.2, nl.1 hb.1⟩ hA
+          simp only [if_neg hA, true_and, if_true, ne_eq, not_true_eq_false, if_false, visitL]
+          rw [cl]
+          simp only [ite_self]
+          rw [cr]
+          simp only [and_true]
+          simp only [walk, hleaf, Bool.false_eq_true, if_false, ordOf]
+          have hpre : doVisit visit (elemAt m a) .pre (0, log) =
+              (visit log.length (elemAt m a) .pre, log ++ [(elemAt m a, .pre)]) := by simp [doVisit]
+          rw [hpre]
+          generalize walk false visit r (visit log.length (elemAt m a) .pre, log ++ [(elemAt m a, .pre)]) = s2
+          obtain ⟨r2, l2⟩ := s2
+          have hmid : (if r2 = 0 then visit l2.length (elemAt m a) .mid else r2,
+              if r2 = 0 then l2 ++ [(elemAt m a, Ord.mid)] else l2) = doVisit visit (elemAt m a) .mid (r2, l2) := by
+            by_cases h0 : r2 = 0 <;> simp [doVisit, h0]
+          simp only [hmid]
+          generalize walk false visit l (doVisit visit (elemAt m a) .mid (r2, l2)) = s4
+          obtain ⟨r4, l4⟩ := s4
+          by_cases h0 : r4 = 0 <;> simp [doVisit, h0]
+      · -- forward
+        have cl := childStep visit true m f (m.lf a) a l hl hhl (fun log h0 => ihl _ _ log f hl h0 hhl)
+        have cr := childStep visit true m f (m.rt a) a r hr hhr (fun log h0 => ihr _ _ log f hr h0 hhr)
+        unfold c_priv_cstl_bintree_foreach
+        simp only [chL, chR, if_true]
+        by_cases hA : m.lf a = 0 ∧ m.rt a = 0
+        · have e1 : r = .nil := by cases r <;> simp_all [Tree.isNil]
+          have e2 : l = .nil := by cases l <;> simp_all [Tree.isNil]
+          subst e1 e2
+          simp [hA.1, hA.2, visitL, ordOf, walk, doVisit, Tree.isNil]
+        · have hleaf : (l.isNil && r.isNil) = false := by
+            cases hb : (l.isNil && r.isNil) with
+            | false => rfl
+            | true => simp only [Bool.and_eq_true] at hb; exact absurd ⟨nl.1 hb.1, nr.1 hb.2⟩ hA
+          simp only [if_neg hA, true_and, if_true, ne_eq, not_true_eq_false, if_false, visitL]
+          rw [cl]
+          simp only [ite_self]
+          rw [cr]
+          simp only [and_true]
+          simp only [walk, hleaf, Bool.false_eq_true, if_false, if_true, ordOf]
+          have hpre : doVisit visit (elemAt m a) .pre (0, log) =
+              (visit log.length (elemAt m a) .pre, log ++ [(elemAt m a, .pre)]) := by simp [doVisit]
+          rw [hpre]
+          generalize walk true visit l (visit log.length (elemAt m a) .pre, log ++ [(elemAt m a, .pre)]) = s2
+          obtain ⟨r2, l2⟩ := s2
+          have hmid : (if r2 = 0 then visit l2.length (elemAt m a) .mid else r2,
+              if r2 = 0 then l2 ++ [(elemAt m a, Ord.mid)] else l2) = doVisit visit (elemAt m a) .mid (r2, l2) := by
+            by_cases h0 : r2 = 0 <;> simp [doVisit, h0]
+          simp only [hmid]
+          generalize walk true visit r (doVisit visit (elemAt m a) .mid (r2, l2)) = s4
+          obtain ⟨r4, l4⟩ := s4
+          by_cases h0 : r4 = 0 <;> simp [doVisit, h0]
+
+
+/-- `cstl_bintree_foreach` on a memory that represents the tree `t`: the recursion started at the root
+(`bt->root != NULL`) with fuel `t.height` makes exactly the visits of the functional `foreach` -/
+theorem foreach_root_refines (visit : Nat → Elem → Ord → Int) (fwd : Bool) (m : TM) (h : Hd) (t : Tree)
+    (ht : IsTree m h.root 0 t) (hroot : h.root ≠ 0) :
+    c_priv_cstl_bintree_foreach (visitL visit) t.height [] m h.root fwd =
+      some ((Cstl.Tree.foreach fwd visit t).2, m, (Cstl.Tree.foreach fwd visit t).1) :=
+  foreach_refines visit fwd m t h.root 0 [] t.height ht.shape hroot (Nat.le_refl _)
+
+/-! ### the hypotheses on `cmp` are satisfiable (the comparison the harness installs: by key) -/
+
+example (m : TM) : ∀ a b, (fun a b => m.key a - m.key b) a b < 0 ↔ m.key a < m.key b := by
+  intro a b; simp only; omega
+
+example (m : TM) (f : Nat) : CmpProbe (fun a b => m.key a - m.key b) m f (m.key f) := by
+  intro b; simp only; constructor <;> omega
 
 end Cstl.TreeL.Tie2
